@@ -100,7 +100,7 @@ theorem MonoP.add {J : Nat → Prop} {s : St} {j : Nat} (h : MonoP (fun x => J x
 
 theorem setNextRun_jobs (s : St) (j : Nat) (nr : Option Int) :
     (setNextRun s j nr).1 = s ∨
-    ∃ st, st ≠ Status.created ∧
+    ∃ st, (st = Status.paused ∨ st = Status.running) ∧
       (setNextRun s j nr).1.jobs = fun i => if i = j then { s.job j with nextRun := nr, status := st } else s.jobs i := by
   unfold setNextRun
   cases nr with
@@ -108,7 +108,7 @@ theorem setNextRun_jobs (s : St) (j : Nat) (nr : Option Int) :
     right
     obtain ⟨_, h2, _⟩ := runCbs_frame false j ((s.setJob j { s.job j with nextRun := none, status := .paused }).job j).onUpdate
       (s.setJob j { s.job j with nextRun := none, status := .paused })
-    refine ⟨.paused, by simp, ?_⟩
+    refine ⟨.paused, Or.inl rfl, ?_⟩
     show (runCbs false j _ _).jobs = _
     rw [h2]; rfl
   | some t =>
@@ -118,7 +118,7 @@ theorem setNextRun_jobs (s : St) (j : Nat) (nr : Option Int) :
     · right
       obtain ⟨_, h2, _⟩ := runCbs_frame false j ((s.setJob j { s.job j with nextRun := some t, status := .running }).job j).onUpdate
         (s.setJob j { s.job j with nextRun := some t, status := .running })
-      refine ⟨.running, by simp, ?_⟩
+      refine ⟨.running, Or.inr rfl, ?_⟩
       show (runCbs false j _ _).jobs = _
       rw [h2]; rfl
 
@@ -131,7 +131,7 @@ theorem setNextRun_mono {J : Nat → Prop} (s : St) (j : Nat) (nr : Option Int) 
     · intro hc
       exfalso
       have : ((setNextRun s j nr).1.job j).status = st := by unfold St.job; rw [hjobs]; simp
-      rw [this] at hc; exact hst hc
+      rw [this] at hc; rcases hst with rfl | rfl <;> cases hc
     · have hj : (setNextRun s j nr).1.job j = { s.job j with nextRun := nr, status := st } := by
         show (setNextRun s j nr).1.jobs j = _
         rw [hjobs]; simp
